@@ -458,12 +458,18 @@ VX void verif_sha256_tagged(const secp256k1_context *ctx, const unsigned char *t
 
 /* an independent, deliberately plain SHA-256 compression function, installable through the public API */
 static uint32_t verif_rotr(uint32_t x, int n) { return (x >> n) | (x << (32 - n)); }
+/* the header documents the pluggable compression function as processing "one or more" blocks: calls with n_blocks == 0 are
+ * counted (and treated as a no-op, so results stay comparable); a replacement that is correct for n_blocks >= 1 only
+ * (e.g. a do/while loop) would silently corrupt every hash if the library made such a call */
+static size_t verif_sha_zero_block_calls = 0;
+VX size_t verif_sha256_zero_block_calls(void) { return verif_sha_zero_block_calls; }
 VX void verif_sha256_compress(uint32_t *s, const unsigned char *blocks, size_t n_blocks) {
     static const uint32_t K[64] = {
         0x428a2f98,0x71374491,0xb5c0fbcf,0xe9b5dba5,0x3956c25b,0x59f111f1,0x923f82a4,0xab1c5ed5,0xd807aa98,0x12835b01,0x243185be,0x550c7dc3,0x72be5d74,0x80deb1fe,0x9bdc06a7,0xc19bf174,
         0xe49b69c1,0xefbe4786,0x0fc19dc6,0x240ca1cc,0x2de92c6f,0x4a7484aa,0x5cb0a9dc,0x76f988da,0x983e5152,0xa831c66d,0xb00327c8,0xbf597fc7,0xc6e00bf3,0xd5a79147,0x06ca6351,0x14292967,
         0x27b70a85,0x2e1b2138,0x4d2c6dfc,0x53380d13,0x650a7354,0x766a0abb,0x81c2c92e,0x92722c85,0xa2bfe8a1,0xa81a664b,0xc24b8b70,0xc76c51a3,0xd192e819,0xd6990624,0xf40e3585,0x106aa070,
         0x19a4c116,0x1e376c08,0x2748774c,0x34b0bcb5,0x391c0cb3,0x4ed8aa4a,0x5b9cca4f,0x682e6ff3,0x748f82ee,0x78a5636f,0x84c87814,0x8cc70208,0x90befffa,0xa4506ceb,0xbef9a3f7,0xc67178f2 };
+    if (n_blocks == 0) verif_sha_zero_block_calls++;
     while (n_blocks--) {
         uint32_t w[64], a, b, c, d, e, f, g, h, t1, t2;
         int i;
